@@ -81,6 +81,7 @@ def run(ctx):
              "contributions_compared": 0}
     samples = []
     limit_theorem = {}
+    limit_theorem3 = {}
 
     def report(cfg, kind, contribution, what, detail, found=True):
         """a violation of the property for this configuration, unless it is a listed known finding"""
@@ -127,6 +128,18 @@ def run(ctx):
                             "not defined on a neighbourhood of rho = 0, or g(0), g'(0) are not zero" % (name, vobl),
                             {"broken": "gen/C13/%s.v: virial_obligations (C13_second_virial_limit_of_program)" % name, "config": name,
                              "values": str(vobl), "oracle": cfg["oracle"]}, found_input=False)
+        vobl3 = by_prog(tags, "VOBL3").get("P")
+        if cfg["enclosed"] and cfg["order3"]:
+            inst3 = isinstance(vobl3, list) and len(vobl3) > 0 and all(x is True for x in vobl3)
+            limit_theorem3[name] = inst3
+            if inst3:
+                obligations += len(vobl3)
+                discharged += len(vobl3)
+            elif classify(cfg) in EXPECT_LIMIT_THEOREM:
+                obligations += len(cfg["temperatures"])
+                V.violation(ctx, "%s: the third-virial limit theorem is no longer instantiated (virial_obligations3 = %s)" % (name, vobl3),
+                            {"broken": "gen/C13/%s.v: virial_obligations3 (C13_third_virial_limit_of_program)" % name, "config": name,
+                             "values": str(vobl3), "oracle": cfg["oracle"]}, found_input=False)
         if same is True:
             stats["same_program"] += 1
         for ti, t in enumerate(cfg["temperatures"]):
@@ -217,6 +230,7 @@ def run(ctx):
         "configurations_where_zero_density_path_is_the_same_program": stats["same_program"],
         "contribution_limits_compared": stats["contributions_compared"],
         "limit_theorem_instantiated": limit_theorem,
+        "third_virial_limit_theorem_instantiated": limit_theorem3,
         "oracle_evaluations": stats["oracle"], "oracle_worst_relative_B": stats["worst_oracle_B"],
         "samples": samples,
         "rule": "per configuration one composition, 2 (quick) / 4 (thorough) temperatures in [0.5,3] T_scale; programs traced at rho = 0 and at 1e-3 rho_max",
